@@ -71,7 +71,7 @@ func c19TryClient(reply []byte, eofAfter bool) (ok bool, exts map[string]string,
 
 func checkC19(c *lib.Ctx) {
 	r := c.R
-	r.Rule = "client: handshake replies with versions {0..5, 2^31, 2^32-1} x extension lists, every truncation of a valid VERSION reply, every other type byte, PRNG bodies: construction succeeds iff type=2, version=3 and the extension list parses, and reports exactly the advertised extensions; server: every ordered subset of the supported extensions (plus lists with repetitions; invalid names from four prior lists) through SetSFTPExtensions x BOTH servers under EVERY subset of their options (os: ReadOnly, WithAllocator, WithServerWorkingDirectory, WithMaxTxPacket, WithDebug = 32 variants; request server: WithRSAllocator, WithStartDirectory, WithRSMaxTxPacket = 8 variants) x INIT variants (versions, client extension pairs): VERSION carries exactly the configured list; per session extended requests with every supported name (configured or not; absolute and relative paths; results checked on the tree; on a read-only server the mutating ones must be PERMISSION_DENIED and change nothing), ~110 unserved names (empty, other OpenSSH names, supported names in other case / without or with another domain / with NUL, blank, newline, one byte more or less, non-UTF-8, 255..65536 bytes (200000 thorough)) and PRNG names (random bytes, one-byte mutations of supported names) with rotating argument shapes (none, path, two paths, handle, random bytes, cut string): each must be answered STATUS OP_UNSUPPORTED with the request id, create nothing, and a following STAT must be answered; a pipelined batch per session (replies in order); requests that do not decode (id/name/argument cut or over-long, one session each) must end the session or be refused, never served; non-trivial = everything but a supported name with valid arguments; quick rotates a third of the fixed unserved names and a quarter of the malformed requests per (configuration, variant) except every fourth configuration"
+	r.Rule = "client: handshake replies with versions {0..5, 2^31, 2^32-1} x extension lists, every truncation of a valid VERSION reply, every other type byte, PRNG bodies: construction succeeds iff type=2, version=3 and the extension list parses, and reports exactly the advertised extensions; server: every ordered subset of the supported extensions (plus lists with repetitions; invalid names from four prior lists) through SetSFTPExtensions x BOTH servers under EVERY subset of their options (os: ReadOnly, WithAllocator, WithServerWorkingDirectory, WithMaxTxPacket, WithDebug = 32 variants; request server: WithRSAllocator, WithStartDirectory, WithRSMaxTxPacket = 8 option sets x 4 FileCmd handlers implementing a subset of {PosixRenameFileCmder, StatVFSFileCmder} and recording the method reached (quick: one handler per option set, rotating with the configuration)) x INIT variants (versions, client extension pairs): VERSION carries exactly the configured list; per session extended requests with every supported name (configured or not; absolute and relative paths; results checked on the tree; on a read-only server the mutating ones must be PERMISSION_DENIED and change nothing), ~110 unserved names (empty, other OpenSSH names, supported names in other case / without or with another domain / with NUL, blank, newline, one byte more or less, non-UTF-8, 255..65536 bytes (200000 thorough)) and PRNG names (random bytes, one-byte mutations of supported names) with rotating argument shapes (none, path, two paths, handle, random bytes, cut string): each must be answered STATUS OP_UNSUPPORTED with the request id, create nothing, and a following STAT must be answered; a pipelined batch per session (replies in order); requests that do not decode (id/name/argument cut or over-long, one session each) must end the session or be refused, never served; EVERY extended request sent (serial, pipelined, malformed body) is also mapped to the outcome classes of the Lean model M-ExtDispatch (served:<operation reached> | unsupported | denied | bad | ends) and compared with driver op c19.ext <os|rs+ifaces> <readOnly> <name> <bodyOk>, identical questions asked once; non-trivial = everything but a supported name with valid arguments; quick rotates a third of the fixed unserved names and a quarter of the malformed requests per (configuration, variant) except every fourth configuration"
 	// ---- client side ----
 	var lines, impl []string
 	versions := []uint32{0, 1, 2, 3, 4, 5, 1 << 31, 0xffffffff}
